@@ -1,0 +1,35 @@
+//go:build verif
+
+package api
+
+import "sync"
+
+// Verification hooks (build tag "verif"). VerifYield, when set, is called at
+// the named points that separate the atomic steps of concurrent code so that a
+// deterministic scheduler can drive the real code through chosen interleavings.
+var VerifYield func(site string)
+
+// VerifYieldPoint is what the other packages of this module call.
+func VerifYieldPoint(site string) {
+	if f := VerifYield; f != nil {
+		f(site)
+	}
+}
+
+// VerifAwaitLock parks the caller at yield points until mu is free, so that a
+// goroutine about to block on mu is visible to the scheduler as parked.
+func VerifAwaitLock(mu *sync.Mutex, site string) {
+	if VerifYield == nil {
+		return
+	}
+	for {
+		if mu.TryLock() {
+			mu.Unlock()
+			return
+		}
+		VerifYieldPoint("blocked:" + site)
+	}
+}
+
+func verifYield(site string)                     { VerifYieldPoint(site) }
+func verifAwaitLock(mu *sync.Mutex, site string) { VerifAwaitLock(mu, site) }
